@@ -1,11 +1,11 @@
 (* C18 -- AES and PRNG generators implement their published algorithms.
    Only statements + `exact`; proofs live in Lib/AesProofs.v, AesSteps.v, AesCipher.v, AesInverse.v,
-   PrngProofs.v.  Specifications: Lib/AesSpec.v (FIPS-197), Lib/PrngSpec.v (published PRNGs).
+   AesSm.v, PrngProofs.v, PrngProto.v.  Specifications: Lib/AesSpec.v (FIPS-197), Lib/PrngSpec.v (published PRNGs).
    Structure models of rtllib: Lib/AesModel.v (over Gen/AesTables.v, regenerated from
    pyrtl/rtllib/aes.py on every run), Lib/PrngModel.v. *)
 From Coq Require Import ZArith List Bool.
 From PyRTL Require Import Gen.AesTables Lib.AesSpec Lib.AesModel Lib.AesProofs Lib.AesSteps
-  Lib.AesCipher Lib.AesInverse Lib.PrngSpec Lib.PrngModel Lib.PrngProofs.
+  Lib.AesCipher Lib.AesInverse Lib.AesSm Lib.PrngSpec Lib.PrngModel Lib.PrngProofs Lib.PrngProto.
 Import ListNotations.
 Open Scope Z_scope.
 
@@ -71,9 +71,9 @@ Theorem C18_fips197_invcipher_inverts_cipher : forall key pt,
 Proof. exact InvCipherZ_CipherZ. Qed.
 Print Assumptions C18_fips197_invcipher_inverts_cipher.
 
-(* ---- AES state machines.  Full statement (NOT proved; checked behaviourally by py/checks/C18.py
-   against the circuit, the model and FIPS-197): from any state, a reset pulse with (pt, key)
-   followed by at least 11 cycles without reset leaves ready = 1 and the FIPS-197 result. ---- *)
+(* ---- AES state machines, for EVERY key, block, prior state and bogus input sequence: from any
+   state, a reset pulse with (x, key) followed by at least 11 cycles without reset leaves ready = 1
+   and the FIPS-197 result (the bound the suite documents; the next theorem gives the exact one). ---- *)
 Definition C18_aes_state_machines_full_statement : Prop :=
   forall key x s (rest : list sm_input),
     0 <= key < 2 ^ 128 -> 0 <= x < 2 ^ 128 ->
@@ -81,13 +81,47 @@ Definition C18_aes_state_machines_full_statement : Prop :=
     sm_out (fold_left enc_sm_step rest (enc_sm_step s (1, x, key))) = (1, CipherZ key x) /\
     sm_out (fold_left dec_sm_step rest (dec_sm_step s (1, x, key))) = (1, InvCipherZ key x).
 
+Theorem C18_aes_state_machines : C18_aes_state_machines_full_statement.
+Proof. exact aes_state_machines_full. Qed.
+Print Assumptions C18_aes_state_machines.
+
+(* ready EXACTLY from the 10th cycle after the reset cycle on: with fewer than 10 further cycles
+   ready is 0; with 10 or more it is 1 with Cipher / InvCipher, held while reset stays low *)
+Theorem C18_aes_state_machines_ready_exactly : forall key x s rest,
+  0 <= key < 2 ^ 128 -> 0 <= x < 2 ^ 128 -> Forall sm_no_reset rest ->
+  let e := sm_out (fold_left enc_sm_step rest (enc_sm_step s (1, x, key))) in
+  let d := sm_out (fold_left dec_sm_step rest (dec_sm_step s (1, x, key))) in
+  ((length rest < 10)%nat -> fst e = 0 /\ fst d = 0) /\
+  ((10 <= length rest)%nat -> e = (1, CipherZ key x) /\ d = (1, InvCipherZ key x)).
+Proof. exact aes_state_machines_lemma. Qed.
+Print Assumptions C18_aes_state_machines_ready_exactly.
+
+(* the invariant: n cycles after the reset (n capped at 10) the counter is n, the text register is
+   the FIPS-197 state after round n and (encryption) the key register is round key n *)
+Theorem C18_aes_encrypt_state_machine_invariant : forall key x s rest,
+  0 <= key < 2 ^ 128 -> 0 <= x < 2 ^ 128 -> Forall sm_no_reset rest ->
+  let j := Nat.min (length rest) 10 in
+  let w := KeyExpansion (bytes_be key) in
+  fold_left enc_sm_step rest (enc_sm_step s (1, x, key))
+  = (Z.of_nat j, of_bytes_be (enc_state w (bytes_be x) j), of_bytes_be (round_key w j)).
+Proof. exact enc_sm_invariant. Qed.
+Print Assumptions C18_aes_encrypt_state_machine_invariant.
+
+Theorem C18_aes_decrypt_state_machine_invariant : forall key x s rest,
+  0 <= key < 2 ^ 128 -> 0 <= x < 2 ^ 128 -> Forall sm_no_reset rest ->
+  let j := Nat.min (length rest) 10 in
+  let w := KeyExpansion (bytes_be key) in
+  fold_left dec_sm_step rest (dec_sm_step s (1, x, key))
+  = (Z.of_nat j, of_bytes_be (dec_state w (bytes_be x) j), key).
+Proof. exact dec_sm_invariant. Qed.
+Print Assumptions C18_aes_decrypt_state_machine_invariant.
+
 Definition fips_k : Z := 0x000102030405060708090a0b0c0d0e0f.
 Definition fips_p : Z := 0x00112233445566778899aabbccddeeff.
 Definition fips_c : Z := 0x69c4e0d86a7b0430d8cdb78070b4c55a.
 
-(* the instance of the full statement at the FIPS-197 Appendix C.1 vector: not ready during the
-   ten cycles after the reset, ready with the result from the 11th on, bogus inputs ignored *)
-Theorem C18_aes_state_machines_partial :
+(* instance at the FIPS-197 Appendix C.1 vector *)
+Example C18_aes_state_machines_instance :
   map fst (sm_run enc_sm_step sm_init ((1, fips_p, fips_k) :: repeat (0, 5, 1) 13))
     = [0; 0; 0; 0; 0; 0; 0; 0; 0; 0; 0; 1; 1; 1] /\
   nth 11 (sm_run enc_sm_step sm_init ((1, fips_p, fips_k) :: repeat (0, 5, 1) 13)) (0, 0) = (1, fips_c) /\
@@ -96,7 +130,6 @@ Theorem C18_aes_state_machines_partial :
     = [0; 0; 0; 0; 0; 0; 0; 0; 0; 0; 0; 1; 1; 1] /\
   nth 13 (sm_run dec_sm_step sm_init ((1, fips_c, fips_k) :: repeat (0, 5, 1) 13)) (0, 0) = (1, fips_p).
 Proof. vm_compute. repeat split; reflexivity. Qed.
-Print Assumptions C18_aes_state_machines_partial.
 
 (* ---- prng_lfsr: the leap-ahead of `n` chained concats (growing vector, truncated to the register
    width W >= 127 on assignment) is n single steps of the published LFSR, for every n, W, state ---- *)
@@ -110,6 +143,19 @@ Theorem C18_lfsr_wide_register_is_127bit_lfsr : forall W s, 127 <= W ->
   low 127 (lfsr_step W s) = lfsr_step 127 (low 127 s).
 Proof. exact lfsr_step_127. Qed.
 Print Assumptions C18_lfsr_wide_register_is_127bit_lfsr.
+
+(* the n low bits after n steps are the n stream bits of the 127-bit LFSR, earliest most significant *)
+Theorem C18_lfsr_output_is_stream : forall n W s, 127 <= W -> Z.of_nat n <= W ->
+  low (Z.of_nat n) (iter n (lfsr_step W) s) = msb_first (lfsr_stream n (low 127 s)).
+Proof. exact lfsr_output_stream. Qed.
+Print Assumptions C18_lfsr_output_is_stream.
+
+(* hence one request of the circuit model, from any register content: rand = the next `bitwidth`
+   stream bits MSB-first *)
+Theorem C18_lfsr_request_outputs_stream : forall bw lfsr seed, 0 < bw ->
+  m_lfsr_out bw (m_lfsr_step bw lfsr (0, 1, seed)) = msb_first (lfsr_stream (Z.to_nat bw) (low 127 lfsr)).
+Proof. exact lfsr_request_is_stream. Qed.
+Print Assumptions C18_lfsr_request_outputs_stream.
 
 (* ---- prng_xoroshiro128: the un-truncated shift/or/xor network, truncated to 64 bits on assignment,
    and the truncated sum are the published xoroshiro128+ step ---- *)
@@ -133,14 +179,19 @@ Theorem C18_trivium_state_stays_in_range : forall key iv k,
 Proof. exact (fun key iv k => conj (triv_load_inrange key iv) (triv_run_inrange k _ (triv_load_inrange key iv))). Qed.
 Print Assumptions C18_trivium_state_stays_in_range.
 
-(* ---- PRNG load/req/ready protocol.  Full statement (NOT proved; checked behaviourally on every
-   run over bitwidths x bits_per_cycle x schedules): the cycle-level model of each circuit equals
-   the protocol specification built from the published single steps, for every schedule. ---- *)
+(* ---- PRNG load/req/ready protocol, for EVERY schedule of (load, req, seed) inputs: the cycle-level
+   model of each circuit (registers, counters with their computed widths, WAIT/INIT/GEN, load over
+   req priority, word assembly) produces exactly the (ready, rand) sequence of the protocol
+   specification built from the published single steps (Trivium warm-up = 1152 serial steps). ---- *)
 Definition C18_prng_protocol_full_statement : Prop :=
   (forall bw ins, 0 < bw -> m_lfsr_run bw 0 ins = s_lfsr_run bw 0 ins) /\
   (forall bw ins, 0 < bw -> m_xo_run bw xo_init ins = s_xo_run bw sxo_init ins) /\
   (forall bw k ins, 0 < bw -> In k [1; 2; 4; 8; 16; 32; 64] ->
      m_tv_run bw k tv_init ins = s_tv_run bw k stv_init ins).
+
+Theorem C18_prng_protocol : C18_prng_protocol_full_statement.
+Proof. exact prng_protocol_all. Qed.
+Print Assumptions C18_prng_protocol.
 
 Definition tv_seed : Z := 0x0100000000000000000000000000000000000000.
 Definition tv_sched : list (Z * Z * Z) :=
@@ -148,14 +199,13 @@ Definition tv_sched : list (Z * Z * Z) :=
 
 (* instance: the first Trivium vector of the suite (eSTREAM) through both machines: warm-up is
    1152 = 18 x 64 steps, ready at cycle 19, 128 key-stream bits ready 2 cycles after req *)
-Theorem C18_prng_protocol_partial :
+Example C18_prng_protocol_instance :
   m_tv_run 128 64 tv_init tv_sched = s_tv_run 128 64 stv_init tv_sched /\
   nth 19 (s_tv_run 128 64 stv_init tv_sched) (0, 0) = (1, 0) /\
   nth 22 (s_tv_run 128 64 stv_init tv_sched) (0, 0) = (1, 0x1cd761ffceb05e39f5b18f5c22042ab0) /\
   msb_first (triv_keystream (Z.shiftr tv_seed 80) tv_seed 128) = 0x1cd761ffceb05e39f5b18f5c22042ab0 /\
   triv_warmup = 1152%nat.
 Proof. vm_compute. repeat split; reflexivity. Qed.
-Print Assumptions C18_prng_protocol_partial.
 
 (* ---- the specifications reproduce the published vectors; hypotheses are satisfiable ---- *)
 Example C18_fips197_appendix_B :
